@@ -254,7 +254,10 @@ def c20_oracle(rec, dh, sub, mp, limit, coords, ref, rb):
                          "box data differ from every FAB of the file naming range %s %s" % (lo, hi))
                 continue
             # the other selector forms go through other reader functions: same data, declared shape
-            for sel, want in ((nf - 1, arr[..., nf - 1]), ([0, nf - 1], arr[..., [0, nf - 1]]), (list(pck.fields)[0], arr[..., 0])):
+            forms_ = [(nf - 1, arr[..., nf - 1]), ([0, nf - 1], arr[..., [0, nf - 1]]), (list(pck.fields)[0], arr[..., 0])]
+            if nf >= 4:          # the ends of a consecutive run around a permuted interior; a run followed by a far field
+                forms_ += [([0, 2, 1, 3], arr[..., [0, 2, 1, 3]]), ([1, 2, nf - 1], arr[..., [1, 2, nf - 1]])]
+            for sel, want in forms_:
                 with vpool.controlled():
                     st2, a2 = call(lambda: pck[sel][lv][b])
                 if st2 == "exc":
